@@ -2,6 +2,8 @@ import St4sd.Model.Ctrl
 import St4sd.Model.CtrlSplit
 import St4sd.Lemmas.C01
 import St4sd.Lemmas.C01Split
+import St4sd.Model.CtrlLoop
+import St4sd.Lemmas.C01Loop
 /-!
 # C01 — a component is launched only when all its producers are final, and never on a failed one
 
@@ -329,5 +331,65 @@ example : (srun wfHook (sopsHook.take 4)).base.log = [(0, [])] ∧
 example : (srun wfHook sopsHook).base.log = [(0, [])] ∧ ((srun wfHook sopsHook).base.comp 1).ran = false ∧
     (List.range 2).map (fun c => ((srun wfHook sopsHook).base.comp c).ctrl) = [some .shutdown, some .shutdown] ∧
     (srun wfHook sopsHook).base.cur = 1 ∧ (srun wfHook sopsHook).base.done 1 = true := by decide +kernel
+
+/-! ## Consumers of a DoWhile loop (`St4sd.CtrlLoop`): the set of producers grows while the workflow runs
+
+The consumer outside the loop has an edge from every instantiated instance of the looped components it references
+and from the producer of the current condition.  For every loop, every list of condition answers and every history
+of task exits / the two locked parts of `finishedCheck` / scheduler passes (dependencies inside the loop abstracted
+away, so in particular the histories in which an older instance outlives the newer iterations): -/
+
+/-- What the launch of the consumer saw: every instance - of EVERY iteration instantiated so far, not only of the
+latest one - of every looped component it references was over and recorded in `comp_done`. -/
+theorem loop_launch_after_every_instance_over (L : CtrlLoop.Loop) (script : List Bool) (ops : List CtrlLoop.Op) :
+    ∀ c lp, (CtrlLoop.run L script ops).launched = some (c, lp) →
+      ∀ k, k ≤ c → ∀ n ∈ L.refs, n < L.n → lp k n = 3 :=
+  fun c lp h => ((C01Loop.inv_run L script ops).launch c lp h).2.2
+
+/-- No iteration is instantiated after the consumer was launched: the loop is still at the iteration the launch
+saw (the producer of the current condition was in `comp_done`, and the next iteration is created before that). -/
+theorem loop_no_iteration_after_launch (L : CtrlLoop.Loop) (script : List Bool) (ops : List CtrlLoop.Op) :
+    ∀ c lp, (CtrlLoop.run L script ops).launched = some (c, lp) → (CtrlLoop.run L script ops).cur = c :=
+  fun c lp h => ((C01Loop.inv_run L script ops).launch c lp h).1.symm
+
+/-- The launch record is permanent. -/
+theorem loop_launch_is_permanent (L : CtrlLoop.Loop) (script : List Bool) (ops ops' : List CtrlLoop.Op)
+    (v : Nat × (Nat → Nat → Nat)) (h : (CtrlLoop.run L script ops).launched = some v) :
+    (CtrlLoop.run L script (ops ++ ops')).launched = some v := by
+  unfold CtrlLoop.run at *
+  rw [List.foldl_append]
+  exact C01Loop.launched_foldl L ops' _ v h
+
+/-- The statement the end-of-run oracle of the harness evaluates: every instance the consumer FINALLY consumes
+from (whatever happens after its launch: `ops'`) was over and recorded when the consumer was launched. -/
+theorem loop_consumer_launched_after_all_its_final_producers (L : CtrlLoop.Loop) (script : List Bool)
+    (ops ops' : List CtrlLoop.Op) (c : Nat) (lp : Nat → Nat → Nat)
+    (h : (CtrlLoop.run L script ops).launched = some (c, lp)) :
+    ∀ k, k ≤ (CtrlLoop.run L script (ops ++ ops')).cur → ∀ n ∈ L.refs, n < L.n → lp k n = 3 := by
+  have h' := loop_launch_is_permanent L script ops ops' (c, lp) h
+  have e := loop_no_iteration_after_launch L script (ops ++ ops') c lp h'
+  intro k hk
+  exact loop_launch_after_every_instance_over L script (ops ++ ops') c lp h' k (by omega)
+
+/-- iterations that were never instantiated have no history (instances exist for the iterations `≤ cur` only) -/
+theorem loop_uninstantiated_iterations_untouched (L : CtrlLoop.Loop) (script : List Bool) (ops : List CtrlLoop.Op) :
+    ∀ k n, (CtrlLoop.run L script ops).cur < k → (CtrlLoop.run L script ops).ph k n = 0 :=
+  (C01Loop.inv_run L script ops).fresh
+
+/-- two looped components, `0` produces the condition, the consumer references `1` (off the critical path) -/
+def loopEx : CtrlLoop.Loop := { n := 2, cond := 0, refs := [1] }
+
+/-- iteration 0 of component 1 is still running while iteration 1 is instantiated, runs and is over -/
+def loopOpsLaggard : List CtrlLoop.Op :=
+  [.exit 0 0, .crit 0 0 true, .post 0 0, .exit 1 0, .crit 1 0 true, .post 1 0,
+   .exit 1 1, .crit 1 1 true, .post 1 1, .sched]
+
+/-- non-vacuity: the consumer is launched after two iterations, and not while the laggard runs -/
+example : (CtrlLoop.run loopEx [true, false] loopOpsLaggard).launched.isNone = true ∧
+    (CtrlLoop.run loopEx [true, false] loopOpsLaggard).cur = 1 := by decide
+
+example : ((CtrlLoop.run loopEx [true, false]
+      (loopOpsLaggard ++ [.exit 0 1, .crit 0 1 true, .sched, .post 0 1, .sched])).launched.map
+        (fun v => (v.1, v.2 0 1, v.2 1 1))) = some (1, 3, 3) := by decide
 
 end St4sd.C01
